@@ -167,6 +167,13 @@ class Values(object):
             return ''.join(rng.choice(a) for _ in range(n))
         a = self.alpha('AN')
         s = ''.join(rng.choice(a) for _ in range(n))
+        if self.rich and self.charset == 'E' and n >= 4 and rng.random() < 0.08:
+            # character sequences that mean something to an output syntax (XML, HTML), not only single characters
+            toks = [t for t in (']]>', '<!--', '-->', '&#38;', '<?x', '?>', '&lt;', '<![CDATA[', ']]>', '&amp;') if len(t) <= n and not (set(t) & self.forbid)]
+            if toks:
+                t = rng.choice(toks)
+                k = rng.randint(0, n - len(t))
+                s = s[:k] + t + s[k + len(t):]
         s = s.rstrip()
         if s.strip() == '':
             s = 'A'
@@ -347,8 +354,15 @@ def add_ta1(doc, where='after-isa'):
             ta1 = [c for c in isa_loop.children if c.id == 'TA1'][0]
             d.recs.append(Rec(ta1, [isa_ctl, '240101', '1200', 'A', '000'], list(r.chain[:1])))
         d.recs.append(Rec(r.node, copy.deepcopy(r.vals), list(r.chain)))
+        if r.node.id == 'GE' and where == 'between-groups' and not placed:
+            # after the first group (between two groups when the interchange has several)
+            isa_loop = r.chain[0][0]
+            ta1 = [c for c in isa_loop.children if c.id == 'TA1'][0]
+            d.recs.append(Rec(ta1, [isa_ctl, '240101', '1200', 'A', '000'], list(r.chain[:1])))
+            placed = True
         if r.node.id == 'ISA':
             isa_ctl = r.vals[12]
+            placed = False
             if where == 'after-isa':
                 isa_loop = r.chain[0][0]
                 ta1 = [c for c in isa_loop.children if c.id == 'TA1'][0]
